@@ -31,6 +31,8 @@ def plan(seed, subbatch):
         spec["common"]["timeframe"] = tf
         if cfg.random() < 0.5:
             spec["common"]["timeframe_fill"] = True
+    if sub_rng(seed, "ctype").random() < 0.15:
+        spec["common"]["candlestick_type"] = "HA"      # a parameter choice like any other
     n = planlib.pick_n(cfg, (1, 12), (5, 60), (20, 250))
     long_history = cfg.random() < (0.04 if planlib.thorough() else 0.012)
     if long_history:
